@@ -30,6 +30,14 @@ EXTENDS Assoc
 
 CONSTANTS LegacyBreak, SwapIn, ShallowSub, IgnoreNs
 
+(* SubCacheNs: 0 = the code: _subclasses_lc() computes the subclass list    *)
+(* from the class store of the namespace of the request.  n > 0 = a        *)
+(* realistic memo cache keyed by the class name WITHOUT the namespace, as  *)
+(* it behaves once namespace n was asked first: every namespace gets the   *)
+(* subclass list of namespace n's hierarchy.  Declared as an operator so   *)
+(* that configurations need not set it.                                    *)
+SubCacheNs == 0
+
 IOk(S) == [k |-> "ok", S |-> S]
 IErr4 == [k |-> "err4", S |-> {}]
 IErr6 == [k |-> "err6", S |-> {}]
@@ -40,6 +48,16 @@ IExc == [k |-> "exc:AttributeError", S |-> {}]
 ImplSubtree(c) ==
   IF ShallowSub THEN {d \in Classes : d = c \/ Parent(d) = c}
   ELSE Subtree(c)
+
+(* class filter on a stored copy (instance of a class of ITS namespace):    *)
+(* inst.classname.lower() in _subclasses_lc(filter, class store of ns)      *)
+ImplCopyClassOk(G, a, f) ==
+  LET xp == IF a.cls # "ABX" THEN ""
+            ELSE IF SubCacheNs = 0 THEN a.xp ELSE G.xpar[SubCacheNs] IN
+  \/ a.cls \in ImplSubtree(f)
+  \/ a.cls = "ABX" /\ xp # "" /\ xp \in ImplSubtree(f)
+     /\ ~ShallowSub
+  \/ a.cls = "ABX" /\ xp = f /\ ShallowSub
 
 (* `prop.value == instname`: CIMInstanceName equality = namespace, class   *)
 (* and key values (host: both None here); v, x = node indexes              *)
@@ -52,7 +70,7 @@ RECURSIVE ScanRef(_, _, _, _, _, _)
 ScanRef(G, a, x, rc, ro, i) ==
   IF i > Len(a.ends) THEN FALSE
   ELSE IF SameObject(G, a.ends[i], x)
-       THEN IF rc # "" /\ a.cls \notin ImplSubtree(rc)
+       THEN IF rc # "" /\ ~ImplCopyClassOk(G, a, rc)
             THEN ScanRef(G, a, x, rc, ro, i + 1)            \* continue
             ELSE IF ro # "" /\ Roles(a.cls)[i] # ro
                  THEN IF LegacyBreak THEN FALSE              \* break
@@ -86,13 +104,16 @@ ScanAssoc(G, a, x, rc, rr) ==
 
 BadFilterClass(ac, rc) ==
   (ac # "" /\ ac \notin Classes) \/ (rc # "" /\ rc \notin Classes)
+(* _validate_class_exists(namespace of the source, filter class)           *)
+BadFilterClassAt(G, x, ac, rc) ==
+  BadFilterClass(ac, rc) \/ XAbsent(G, x, ac) \/ XAbsent(G, x, rc)
 
 (* phase 2 over the referencing instances found by phase 1 *)
 ImplPhase2(G, x, rc, rr, refs) ==
   UNION {ScanAssoc(G, G.assocs[j], x, rc, rr) : j \in refs}
 
 ImplAssocNames(G, x, ac, rc, rr, ro) ==     \* note the code's argument order
-  IF BadFilterClass(ac, rc) THEN IErr4
+  IF BadFilterClassAt(G, x, ac, rc) THEN IErr4
   ELSE LET refs == ImplRefPaths(G, x, ac, ro) IN
        IF ~PathsInStore(G, x, refs) THEN IExc   \* None.properties
        ELSE IOk(ImplPhase2(G, x, rc, rr, refs))
@@ -105,7 +126,7 @@ ImplAssocOp(op, G, x, ac, rc, ro, rr) ==
 (* ReferenceNames ("AN": the paths) / References ("A": the instances got  *)
 (* by path from the store of the source's namespace); S = assocs indexes  *)
 ImplRefOpOn(op, G, x, rc, refs) ==     \* refs = ImplRefPaths(G, x, rc, ro)
-  IF rc # "" /\ rc \notin Classes THEN IErr4
+  IF (rc # "" /\ rc \notin Classes) \/ XAbsent(G, x, rc) THEN IErr4
   ELSE IF op = "AN" THEN IOk({PathIdx(G, j) : j \in refs})
   ELSE IF ~PathsInStore(G, x, refs) THEN IErr6
   ELSE IOk(refs)
@@ -121,7 +142,7 @@ RefProps(c) == {<<Roles(c)[i], RefClass(c)[i]>> : i \in DOMAIN Roles(c)}
 
 ImplRefClassnames(c, rc, ro) ==
   IF rc # "" /\ rc \notin Classes THEN IErr4
-  ELSE IOk({ac \in AssocClasses :
+  ELSE IOk({ac \in AssocClasses \ {"ABX"} :    \* class level: fixed schema
               \E p \in RefProps(ac) :
                  /\ p[2] \in ({c} \cup Superclasses(c))
                  /\ (rc = "" \/ ac \in ImplSubtree(rc))
